@@ -353,7 +353,7 @@ def kernel_replay(sample, bind=True):
         return 0, [], ""
     d = os.path.join(common.COQ, "cases")
     os.makedirs(d, exist_ok=True)
-    per = max(4, -(-len(sample) // common.NPROC))
+    per = max(10, -(-len(sample) // common.NPROC))
     files = []
     for k in range(0, len(sample), per):
         chunk = sample[k:k + per]
